@@ -881,6 +881,20 @@ func cmdCheck(args []string) int {
 		newViol = append(newViol, sig)
 		exit = 1
 	}
+	// every listed open finding of the property gets its line, also when this
+	// batch of runs did not reach it
+	for _, k := range known {
+		if k.Property != pd.ID || k.Status != "open" {
+			continue
+		}
+		seen := false
+		for _, sg := range knownSeen {
+			seen = seen || sg == k.Signature
+		}
+		if !seen {
+			fmt.Printf("KNOWN-FINDING: property=%s %s [%s] (listed; not reached by this batch of runs)\n", pd.ID, k.What, k.Signature)
+		}
+	}
 	wall := time.Since(t0).Seconds()
 	if err := writeEvidence(pd, *tier, seed, results, wall, len(newViol), knownSeen, recheckRuns, recheckMismatch, otherProps); err != nil {
 		fmt.Fprintln(os.Stderr, "check: evidence:", err)
